@@ -51,6 +51,8 @@ func runC03(e *Env) {
 	ruleWrap(e, "C03.wrap", "sem")
 	ruleLimit(e, "C03.limit", "sem")
 	ruleTyped(e, "C03.typed", "sem")
+	ruleDeleg(e, "C03.deleg", "sem")
+	e.S.Floor("C03.deleg", 12)
 	e.S.Floor("C03.typed", 1)
 	e.S.Floor("C03.errzero", 10)
 	e.S.Floor("C03.wrap", 10)
